@@ -857,6 +857,96 @@ def big_crash_segments(path, tier):
     return len(segs)
 
 
+def full_table_segments(path, tier):
+    """mass departures from tables that are EXACTLY full (28 of 32, 56 of 64, 112 of 128 buckets'
+    worth of entries: every erased slot lies in a full probe group and stays a tombstone, the
+    growth budget is used up), followed by insertions that reuse the vacated buckets and by
+    lookups of every key.  This is where an operation that tidies the table up after removing
+    entries (rehash in place, shrink, rebuild) moves entries under the list's feet; the bounded
+    model cannot reach it (4-8 buckets, no tombstones) and random traces rarely sit exactly on a
+    capacity."""
+    def opl(op, **kw):
+        a = {"op": op, "k": 0, "kh": 0, "vs": 0, "n": 0, "keep": [], "w": [], "fl": False}
+        a.update(kw)
+        return {"c": 1, "d": 0, "a": a}
+
+    def fill(n, cap=0, limit=-1):
+        return [opl("new", n=limit, kh=cap)] + [opl("insert", k=i, kh=0, vs=i % 3) for i in range(1, n + 1)]
+    segs = []
+    sizes = (28, 56) if tier == "quick" else (14, 28, 56, 112, 224)
+    for n in sizes:
+        total = sum(64 + i % 3 for i in range(1, n + 1))
+        suffix = [opl("len"), opl("debug")] + \
+                 [opl("insert", k=1000 + i, vs=1) for i in range(6)] + \
+                 [opl("debug"), opl("get", k=n), opl("get", k=n - 1), opl("peek", k=7), opl("get_lru"),
+                  opl("insert", k=n, vs=2), opl("remove_lru"), opl("retain", keep=[n, 1000, 1003]),
+                  opl("debug"), opl("shrink_to_fit"), opl("insert", k=2000), opl("debug"), opl("clear")]
+        masses = [
+            opl("retain", keep=list(range(7, n + 1, 7))),              # few survivors, spread out
+            opl("retain", keep=list(range(n - 2, n + 1))),             # only the newest
+            opl("retain", keep=list(range(1, n + 1, 2))),              # every other one
+            opl("retain", keep=list(range(1, 4))),                     # only the oldest
+            opl("set_max_size", n=3 * 64 + 6),                         # all but the last three evicted
+            opl("mutate", k=1, vs=total - 3 * 66),                     # the LRU entry grows: mass eviction
+            opl("insert", k=3000, vs=total - 4 * 66),                  # a huge entry: mass eviction
+            opl("drain", w=["n", "b", "n"]),
+            opl("clear"),
+        ]
+        for m in masses:
+            lim = total if m["a"]["op"] in ("mutate", "insert") else -1
+            for cap in (0, n):
+                segs.append({"prefix": fill(n, cap=cap, limit=lim), "op": m, "suffix": suffix,
+                             "quiet_prefix": True})
+        # one at a time: remove_lru until three remain, each a logged event
+        segs.append({"prefix": fill(n), "op": opl("remove_lru"),
+                     "suffix": [opl("remove_lru") for _ in range(n - 4)] + suffix, "quiet_prefix": True})
+    with open(path, "w") as fh:
+        for s in segs:
+            fh.write(json.dumps(s, separators=(",", ":")) + "\n")
+    return len(segs)
+
+
+def stage_fulltable(tier):
+    d0 = os.path.join(CACHE, "fulltable-segments-%s.ndjson" % tier)
+    os.makedirs(CACHE, exist_ok=True)
+    n = full_table_segments(d0, tier)
+    cfgs = [("identity", "owned"), ("default", "borrowed")] if tier == "quick" else \
+           [("identity", "owned"), ("default", "borrowed"), ("sip", "owned"), ("const", "borrowed")]
+    res = stage_segments(tier, d0, "segments-fulltable", universe="8", configs=cfgs)
+    res["segments"] = n
+    return res
+
+
+def fulltable_into(prop, tier, fnd, cov):
+    seg = stage_fulltable(tier)
+    events = 0
+    for r in seg["runs"]:
+        v = r["validation"]
+        if r.get("crashed") and prop == "C07":
+            fnd.add("process_died:fulltable",
+                    "the process running the full-table segments died (rc %s) under %s/%s: %s" %
+                    (r["rc"], r["hasher"], r["keyform"], r.get("stderr", "")[-300:]),
+                    {"kind": "segments", "file": r["segments_file"], "hasher": r["hasher"],
+                     "keyform": r["keyform"]})
+        if not v["ok"]:
+            raise ToolError("TLC could not evaluate a full-table trace:\n%s" % v["tail"])
+        events += r["events"]
+        for b in v["bad"]:
+            for pr, facet in b["bad"]:
+                if pr == prop:
+                    ops = r.get("bad_context", {}).get(str(b["line"]), [])
+                    sig = "fulltable:%s:%s" % (b["op"], facet)
+                    if facet == "shrink_raises_with_tombstones":
+                        sig = facet                # finding F5, wherever it is met
+                    fnd.add(sig, "full-table segment under %s/%s, event %d: op %s: facet %s rejected" %
+                            (r["hasher"], r["keyform"], b["line"], b["op"], facet),
+                            {"kind": "trace", "hasher": r["hasher"], "keyform": r["keyform"],
+                             "universe": 8, "ops": ops, "facet": facet})
+    cov["full_table_segments"] = seg["segments"]
+    cov["traces_validated_against_impl"] = cov.get("traces_validated_against_impl", 0) + len(seg["runs"])
+    cov["trace_events"] = cov.get("trace_events", 0) + events
+
+
 def stage_bigcrash(tier):
     d0 = os.path.join(CACHE, "bigcrash-segments-%s.ndjson" % tier)
     os.makedirs(CACHE, exist_ok=True)
@@ -1330,6 +1420,7 @@ def collect_core(prop, tier, fnd, cov):
     cov["replay_configurations"] = nconf
     cov["replayed_steps"] = executed
     shapes_into(prop, tier, fnd, cov)
+    fulltable_into(prop, tier, fnd, cov)
     drv = stage_drive(tier)
     collect_drive(prop, drv, fnd, cov)
     if prop in ("C01", "C02", "C04", "C07"):
